@@ -164,6 +164,30 @@ pub async fn run_case(seed: u64, rep: &mut Report) -> anyhow::Result<()> {
             p.insert("verif.list".into(), Preference::StringList(vec!["a".into(), "ü".into()])).await.map_err(|e| anyhow::anyhow!(e.to_string()))?;
         }
     }
+    // a second account in the same data directory (two thirds of the cases); in half of those it holds a copy of a
+    // folder exported by the first account (same folder id and secret ids in two accounts)
+    let dir0 = w.tmp.path().join("dev0");
+    let pw2: secrecy::SecretString = "second account password verif".to_string().into();
+    let key2: AccessKey = pw2.clone().into();
+    let mut second: Option<(sos_core::AccountId, BTreeMap<String, (u64, String, Vec<String>)>, sos_sync::SyncStatus)> = None;
+    let shared_folder = seed % 3 == 1;
+    if seed % 3 != 0 {
+        let t2 = BackendTarget::FileSystem(Paths::new_client(&dir0));
+        let mut b = LocalAccount::new_account("second".to_string(), pw2.clone(), t2).await?;
+        b.sign_in(&key2).await?;
+        let _ = b.initialize_search_index().await;
+        { let mut rng = Rng::new(seed ^ 0x2222); let (m, s) = mk_secret(&mut rng, "second-own"); b.create_secret(m, s, Default::default()).await?; }
+        if shared_folder {
+            let fkey: AccessKey = secrecy::SecretString::from(format!("shared-folder-key-{seed}")).into();
+            let buffer = { let mut a = w.devices[0].lock().await; let f = a.list_folders().await?.into_iter().find(|s| s.name() == "work").map(|s| *s.id()); match f { Some(f) => a.export_folder_buffer(&f, fkey.clone(), false).await.ok(), None => None } };
+            if let Some(buffer) = buffer { let r = b.import_folder_buffer(&buffer, fkey, false).await; script.push(format!("second account imports a copy of the first account's folder -> {}", r.is_ok())); }
+        }
+        let (snap, st, _) = snapshot(&mut b).await.map_err(|e| anyhow::anyhow!(e))?;
+        second = Some((*b.account_id(), snap, st));
+        b.sign_out().await?;
+        script.push("second account in the same data directory".into());
+    }
+    rep.count(&format!("accounts-in-data-dir:{}{}", if second.is_some() { 2 } else { 1 }, if shared_folder { ":shared-folder-id" } else { "" }));
     let extras_before = { let a = w.devices[0].lock().await; extras(&a, &fs_target, &w.account_id).await };
     let (before, status_before, devices_before) = { let mut a = w.devices[0].lock().await; snapshot(&mut a).await.map_err(|e| anyhow::anyhow!(e))? };
     { let mut a = w.devices[0].lock().await; a.sign_out().await?; }
@@ -174,17 +198,36 @@ pub async fn run_case(seed: u64, rep: &mut Report) -> anyhow::Result<()> {
     let dry = upgrade_accounts(paths.documents_dir(), UpgradeOptions { paths: paths.clone(), dry_run: true, ..Default::default() }).await;
     let t1 = tree_digest(&dir);
     rep.case(&format!("dry:{seed}"), true);
-    match dry { Ok(_) => {}, Err(e) => rep.spec_fail("c19-dry-run-fails", json!({"case_seed": seed, "script": script}), &e.to_string()) }
+    match dry { Ok(_) => {}, Err(e) => rep.spec_fail(if shared_folder { "c19-dry-run-fails-folder-id-in-two-accounts" } else { "c19-dry-run-fails" }, json!({"case_seed": seed, "script": script}), &e.to_string()) }
     if t0 != t1 {
         let changed: Vec<&String> = t0.keys().chain(t1.keys()).filter(|k| t0.get(*k) != t1.get(*k)).collect();
         rep.spec_fail("c19-dry-run-changed-source", json!({"case_seed": seed, "script": script, "changed": changed.iter().take(5).collect::<Vec<_>>()}), "a dry run of the upgrade changed files of the source account");
     }
     // 2. real upgrade (old files kept so that nothing else moves underneath the comparison)
     let up = upgrade_accounts(paths.documents_dir(), UpgradeOptions { paths: paths.clone(), dry_run: false, keep_stale_files: true, ..Default::default() }).await;
-    if let Err(e) = up { rep.spec_fail("c19-upgrade-fails", json!({"case_seed": seed, "script": script}), &e.to_string()); return Ok(()); }
+    if let Err(e) = up { rep.spec_fail(if shared_folder { "c19-upgrade-fails-folder-id-in-two-accounts" } else { "c19-upgrade-fails" }, json!({"case_seed": seed, "script": script}), &e.to_string()); return Ok(()); }
     let mut client = sos_database::open_file(paths.database_file()).await?;
     sos_database::migrations::migrate_client(&mut client).await?;
     let target = BackendTarget::Database(paths.clone(), client);
+    if let Some((id2, snap2, st2)) = &second {
+        match LocalAccount::new_unauthenticated(*id2, target.clone()).await {
+            Ok(mut b) => match b.sign_in(&key2).await {
+                Ok(_) => {
+                    let _ = b.initialize_search_index().await;
+                    match snapshot(&mut b).await {
+                        Ok((snap, st, _)) => {
+                            if &snap != snap2 { rep.spec_fail("c19-second-account-content-differs-after-upgrade", json!({"case_seed": seed, "script": script, "before": snap2.len(), "after": snap.len()}), "folders of the second account of the data directory differ after the upgrade"); }
+                            if &st != st2 { rep.spec_fail("c19-second-account-sync-status-differs-after-upgrade", json!({"case_seed": seed, "script": script}), "event-log commit states of the second account differ after the upgrade"); }
+                        }
+                        Err(e) => rep.spec_fail("c19-second-account-unreadable-after-upgrade", json!({"case_seed": seed, "script": script}), &e),
+                    }
+                    let _ = b.sign_out().await;
+                }
+                Err(e) => rep.spec_fail("c19-second-account-does-not-sign-in-after-upgrade", json!({"case_seed": seed, "script": script}), &e.to_string()),
+            },
+            Err(e) => rep.spec_fail("c19-second-account-missing-after-upgrade", json!({"case_seed": seed, "script": script}), &e.to_string()),
+        }
+    }
     let mut up_acct = LocalAccount::new_unauthenticated(w.account_id, target).await?;
     if let Err(e) = up_acct.sign_in(&key).await { rep.spec_fail("c19-upgraded-account-does-not-sign-in", json!({"case_seed": seed, "script": script}), &e.to_string()); return Ok(()); }
     let (after, status_after, devices_after) = snapshot(&mut up_acct).await.map_err(|e| anyhow::anyhow!(e))?;
